@@ -104,8 +104,8 @@ def transformations(spec, recipe, idx):
     return out
 
 
-def best(spec, recipe):
-    obs = A.eval_case(spec, recipe, "cbc", "best")
+def best(spec, recipe, kind="best", window=None):
+    obs = A.eval_case(spec, recipe, "cbc", kind, window)
     return obs["disorder"] if obs["ok"] else None
 
 
@@ -196,6 +196,32 @@ def run(task):
                                                "dissimilarity": recipe, "transformation": name, "disorder": base,
                                                "transformed_disorder": got})
             res["outcomes"].append(round(base, 5))
+            # "multiplying delta_empty by c multiplies EVERY disorder by c": also the fast alignment's (window 1, 2).
+            # Only this relation is claimed for the heuristic: its windows follow absolute positions (a window's
+            # limit starts from 0) and the label order of equal segments, so translations / renamings may
+            # legitimately change which alignment it returns.
+            if big or idx % 6 == 0:
+                for w in (1, 2):
+                    fbase = best(spec, recipe, "fast", w)
+                    res["evaluations"] += 1
+                    res["transitions"] += 1
+                    if fbase is None:
+                        continue
+                    for name, tspec, trecipe, factor in transformations(spec, recipe, idx):
+                        if not name.startswith("delta_empty"):
+                            continue
+                        got = best(tspec, trecipe, "fast", w)
+                        res["evaluations"] += 1
+                        res["transitions"] += 1
+                        res["traces"] += 1
+                        res["state_set"].append(h([spec if not big else task["family"], recipe, name, "fast", w]))
+                        if got is None or not close(got, fbase * factor):
+                            res["violations"].append({
+                                "msg": f"fast-alignment disorder (window {w}) {fbase} becomes {got} under '{name}' "
+                                       f"(expected {fbase * factor})",
+                                "case": {"spec": spec if not big else None, "family": task.get("family"), "recipe": recipe,
+                                         "transformation": name, "fast": w},
+                                "sig": h(["fast", name.split(' ')[0], recipe, len(res["violations"]) // 3])})
             # gamma under the delta_empty relation (same seed, both samplers)
             if (big and n * len(spec["annotators"][1][1]) <= 45) or (not big and idx % 8 == 0 and n <= 3):
                 for sampler in ("stat", "shuffle"):
@@ -229,11 +255,12 @@ def replay(case):
         g0 = gamma(spec, recipe, sampler, seed)
         g1 = gamma(spec, scale_recipe(recipe, c), sampler, seed)
         return [] if close(g0, g1) else [{"msg": f"gamma {g0} becomes {g1} under delta_empty x{c}", "case": case}]
-    base = best(spec, recipe)
+    kind, w = ("fast", case["fast"]) if case.get("fast") else ("best", None)
+    base = best(spec, recipe, kind, w)
     for idx in range(0, 50):
         for name, tspec, trecipe, factor in transformations(spec, recipe, idx):
             if name == case["transformation"]:
-                got = best(tspec, trecipe)
+                got = best(tspec, trecipe, kind, w)
                 if got is None or not close(got, base * factor):
                     return [{"msg": f"disorder {base} becomes {got} under '{name}'", "case": case}]
                 return []
